@@ -1587,3 +1587,13 @@ MUTANTS += [
  dict(id='F81-repaired-variant-looks-at-the-ack-readers-result', props=['C02'], expect='SILENT',
       edits=[(MS, '\tif totalFiles == 0 {\n\t\tselect {\n\t\tcase <-ackDone:\n', '\tif totalFiles == 0 {\n\t\tselect {\n\t\tcase err := <-ackErrChan:\n\t\t\tif err != nil {\n\t\t\t\treturn err\n\t\t\t}\n')]),
 ]
+
+# --- R-FULL-READ accepts a frame built from exactly the bytes read while the receiver holds frames to their tile (round 11) ---
+MUTANTS += [
+ dict(id='R11-benign-short-final-chunk-sent-as-read', props=['C02', 'C01', 'C04'], expect='SILENT',
+      edits=[(MS, '\t\t\t\tif n != int(chunkLen) {\n\t\t\t\t\tbufPool.Put(buf)\n\t\t\t\t\tif err == nil {\n\t\t\t\t\t\terr = io.ErrUnexpectedEOF\n\t\t\t\t\t}\n\t\t\t\t\tsetErr(fmt.Errorf("short read for %s: got %d want %d", state.item.RelPath, n, chunkLen))\n', '\t\t\t\tif n != int(chunkLen) && (n == 0 || chunkIndex+1 < state.totalChunks) {\n\t\t\t\t\tbufPool.Put(buf)\n\t\t\t\t\tsetErr(fmt.Errorf("short read for %s: got %d want %d", state.item.RelPath, n, chunkLen))\n')]),
+ dict(id='R11-short-final-chunk-and-no-tile-check', props=['C02'], expect='R-FULL-READ/full-read/',
+      edits=[(MS, '\t\t\t\tif n != int(chunkLen) {\n\t\t\t\t\tbufPool.Put(buf)\n\t\t\t\t\tif err == nil {\n\t\t\t\t\t\terr = io.ErrUnexpectedEOF\n\t\t\t\t\t}\n\t\t\t\t\tsetErr(fmt.Errorf("short read for %s: got %d want %d", state.item.RelPath, n, chunkLen))\n', '\t\t\t\tif n != int(chunkLen) && (n == 0 || chunkIndex+1 < state.totalChunks) {\n\t\t\t\t\tbufPool.Put(buf)\n\t\t\t\t\tsetErr(fmt.Errorf("short read for %s: got %d want %d", state.item.RelPath, n, chunkLen))\n'), (MS, '\t\t\t\tif want := chunkSizeForIndex(state.item.Size, state.chunkSize, chunkIndex); chunkLen != want {', '\t\t\t\tif want := chunkSizeForIndex(state.item.Size, state.chunkSize, chunkIndex); chunkLen > want {')]),
+ dict(id='R11-short-read-tolerated-frame-at-planned-length', props=['C02'], expect='R-FULL-READ/full-read/',
+      edits=[(MS, '\t\t\t\tif n != int(chunkLen) {\n\t\t\t\t\tbufPool.Put(buf)\n\t\t\t\t\tif err == nil {\n\t\t\t\t\t\terr = io.ErrUnexpectedEOF\n\t\t\t\t\t}\n\t\t\t\t\tsetErr(fmt.Errorf("short read for %s: got %d want %d", state.item.RelPath, n, chunkLen))\n', '\t\t\t\tif n != int(chunkLen) && (n == 0 || chunkIndex+1 < state.totalChunks) {\n\t\t\t\t\tbufPool.Put(buf)\n\t\t\t\t\tsetErr(fmt.Errorf("short read for %s: got %d want %d", state.item.RelPath, n, chunkLen))\n'), (MS, 'writeChunkFrame(transferCtx, s, state, chunkIndex, uint32(n), chunkCRC, buf[:n], opts.ProgressDeltaFn)', 'writeChunkFrame(transferCtx, s, state, chunkIndex, chunkLen, chunkCRC, buf[:chunkLen], opts.ProgressDeltaFn)')]),
+]
